@@ -8,14 +8,25 @@ import IbModel.Generated.Tables
 /-!
 Driver handler for C11 (checkpointing engines).
 
-`CKPT dir=<ok|file> pol=<barrier|every:n|time:s|hybrid:<T|F>:s> max=<none|n> rec=<T|F>
+`CKPT dir=<ok|file|empty|rel> pol=<barrier|every:n|time:s|hybrid:<T|F>:s> max=<none|n> rec=<T|F>
       first=<none|full|crash:j|crashb:j>
-      mut=<none|trunc:o|flip:i:b|set:hex> add=<names|-> pre=<dir|-> mode=<seq|par:n> canon=<..> src <rows> ; steps`
+      mut=<none|trunc:o|flip:i:b|set:hex> add=<names|-> pre=<dir|-> ty=<ok|wrong> sab=<none|j>
+      mode=<seq|par:n|par:none:<s|none>:<d>> canon=<..> src <rows> ; steps`
 
 * `dir`  : the configured checkpoint directory: `ok` = a directory that can be created and listed, `file` = the path
-           is a regular file (`create_dir_all` fails: `Env.dirCreatable = false`);
-* `pre`  : the directory before anything runs: comma-separated `<name>:<hex content>` or `<name>:DIR` (the entry is a
-           sub-directory); a name is either hex bytes or `own.<stamp>` = `checkpoint_<this run's pipeline id>_<stamp>.bin`;
+           is a regular file (`create_dir_all` fails: `Env.dirCreatable = false`); `empty` = the EMPTY path with the
+           process' current directory being the scratch directory, `rel` = a relative path — for the current code
+           (`CheckpointManager::new` turns the empty path into `"."`) both are usable directories like `ok`;
+* `pre`  : the directory before anything runs: comma-separated `<name>:<hex content>`, `<name>:DIR` (the entry is a
+           sub-directory), `<name>:BIG` (a regular file too large to be read into memory: `Env.tooBig`) or
+           `<name>:REP<hh>x<n>` (`n` times the byte `hh`);
+           a name is either hex bytes or `own.<stamp>` = `checkpoint_<this run's pipeline id>_<stamp>.bin`;
+* `ty`   : `wrong` = `run_collect::<T>` is called with a `T` the terminal partition does not have (`cast = none`);
+* `sab`  : `j` = step `j` of the program is an identity step whose closure, during the run proper, RENAMES the
+           checkpoint directory away (`Env.failFrom` = the chain node holding that op): every later save and the
+           final clear fail; the answer's directory part describes the renamed directory;
+* `mode` : `par:none:<s>:<d>` = `ExecMode::Parallel { partitions: None }` with the planner's suggestion `s` and
+           `default_partitions = d`;
 * `first`: an earlier run of the SAME pipeline: `full` = runs to its end, `crash:j` = step `j` of the program (an
            identity step: `map ident` or `filter tt`) is armed and panics, i.e. the process is killed while the chain
            node that contains this op executes; `crashb:j` = step `j` is such an identity step but NOT armed — the
@@ -43,9 +54,10 @@ def progressF (idx total : Nat) : UInt8 := (Float.ofNat idx / Float.ofNat total 
 
 def baseNs : Nat := 1700000000000 * 1000000
 
-def envAt (startNs : Nat) (dirOk : Bool) (dirs : List Name) : Env :=
+def envAt (startNs : Nat) (dirOk : Bool) (dirs bigs : List Name) (failFrom : Option Nat := none) : Env :=
   { H := H, dec := D12.cfgNow, clock := fun k => startNs + k * 1000000, progress := progressF,
-    dirCreatable := dirOk, isDir := fun n => dirs.contains n }
+    dirCreatable := dirOk, isDir := fun n => dirs.contains n, tooBig := fun n => bigs.contains n,
+    failFrom := failFrom }
 
 def ns1 : Nat := baseNs
 def ns2 : Nat := baseNs + 3600 * 1000000000
@@ -122,36 +134,65 @@ def applyMut (m : Mut) (c : Bytes) : Bytes :=
   | .flip i b => (c.zipIdx).map (fun p => if p.2 == i then p.1 ^^^ (UInt8.ofNat (1 <<< b)) else p.1)
   | .set bytes => bytes
 
-/-- one `pre` entry: `<name>:<hex>` (regular file) or `<name>:DIR` (sub-directory); the flag says which -/
-def preEntry? (pid : Bytes) (s : String) : Option ((Name × Bytes) × Bool) :=
+/-- kind of a `pre` entry -/
+inductive EntKind | file | dir | big
+deriving DecidableEq
+
+/-- `REP<hh>x<n>`: `n` times the byte `hh` -/
+def rep? (c : String) : Option Bytes :=
+  if c.startsWith "REP" then
+    match ((c.drop 3).toString).splitOn "x" with
+    | [h, n] => do
+      let b ← D12.hex? h
+      let n ← parseNat? n
+      match b with
+      | [x] => if n ≤ 8388608 then some (List.replicate n x) else none
+      | _ => none
+    | _ => none
+  else none
+
+/-- one `pre` entry: `<name>:<hex>` / `<name>:REP<hh>x<n>` (regular file), `<name>:DIR` (sub-directory),
+    `<name>:BIG` (regular file too large to read; its content is never looked at) -/
+def preEntry? (pid : Bytes) (s : String) : Option ((Name × Bytes) × EntKind) :=
   match s.splitOn ":" with
   | [n, c] => do
     let name ← (if n.startsWith "own." then (parseNat? (n.drop 4).toString).map (fileNameOf pid) else D12.hex? n)
-    if c == "DIR" then pure ((name, []), true)
+    if c == "DIR" then pure ((name, []), .dir)
+    else if c == "BIG" then pure ((name, []), .big)
+    else if c.startsWith "REP" then do
+      let content ← rep? c
+      pure ((name, content), .file)
     else
       let content ← if c.isEmpty then some [] else D12.hex? c
-      pure ((name, content), false)
+      pure ((name, content), .file)
   | _ => none
 
-/-- the initial directory and the names in it that are sub-directories -/
-def pre? (pid : Bytes) (s : String) : Option (FS × List Name) :=
-  if s == "-" then some ([], [])
+/-- the initial directory, the names in it that are sub-directories, and those that are too large to read -/
+def pre? (pid : Bytes) (s : String) : Option (FS × List Name × List Name) :=
+  if s == "-" then some ([], [], [])
   else ((s.splitOn ",").mapM (preEntry? pid)).map fun es =>
-    (es.map (·.1), (es.filter (·.2)).map (·.1.1))
+    (es.map (·.1), (es.filter (·.2 == .dir)).map (·.1.1), (es.filter (·.2 == .big)).map (·.1.1))
 
 /-! rendering -/
 
 def renderRes (canon : String) (r : M Part) : String := D01.render canon r
 
-def renderOutcome (canon : String) (o : Outcome (M Part)) : String :=
+/-- the typed result: `anyhow!("terminal type mismatch")` is an `ERR other:` line of the harness -/
+def renderResT (canon : String) (r : Except TErr Part) : String :=
+  match r with
+  | .ok rows => renderRes canon (.ok rows)
+  | .error (.engine e) => renderRes canon (.error e)
+  | .error .typeMismatch => "ERR other:terminal_type_mismatch"
+
+def renderOutcome (canon : String) (o : Outcome (Except TErr Part)) : String :=
   match o with
-  | .finished r => renderRes canon r
+  | .finished r => renderResT canon r
   | .died .allocFail => "ABORT"
   | .died _ => "PANIC"
   | .setupFailed .createDir => "ERR ckpt-create-dir"
   | .setupFailed .readDir => "ERR ckpt-read-dir"
 
-def isSetupFailure (o : Outcome (M Part)) : Bool :=
+def isSetupFailure (o : Outcome (Except TErr Part)) : Bool :=
   match o with
   | .setupFailed _ => true
   | _ => false
@@ -172,11 +213,11 @@ def lastFields (s : State) : String :=
   s!"lnt:{D12.hexOf s.metadata.lastNodeType},pp:{s.metadata.progressPercent.toNat},pid:{D12.hexOf s.pipelineId}"
 
 /-- `own=<0|+> last=<…>` of a directory (`own`: is there an ENTRY with a well-formed checkpoint name of this id) -/
-def ownStr (isDir : Name → Bool) (pid : Bytes) (fs : FS) : String :=
+def ownStr (isDir tooBig : Name → Bool) (pid : Bytes) (fs : FS) : String :=
   match latest true pid fs with
   | none => "own=0 last=-"
   | some name =>
-    match readD isDir fs name with
+    match readD isDir tooBig fs name with
     | none => "own=+ last=bad:io"
     | some bytes =>
       match load H D12.cfgNow bytes with
@@ -198,11 +239,39 @@ def enabledCfg (ck : Option (Bool × Config)) : Option Config :=
   | some (true, cfg) => some cfg
   | _ => none
 
-/-- `Runner { mode, checkpoint_config }.run_collect` on the planned chain -/
-def runEngine (env : Env) (ck : Option (Bool × Config)) (fs : FS) (chain : List (Node Part)) (par : Option Nat) :
-    Run (M Part) :=
-  runCollect List.flatten env
-    { mode := (match par with | none => .sequential | some n => .parallel n), checkpoint := ck } fs chain
+/-- the mode token: `seq`, `par:n` (`partitions: Some(n)`), `par:none:<s|none>:<d>` (`partitions: None`, planner
+    suggestion `s`, `default_partitions = d`) -/
+structure ModeTok where
+  spec : ModeSpec
+  suggested : Option Nat
+  dflt : Nat
+
+def modeTok? (m : String) : Option ModeTok :=
+  if m == "seq" then some { spec := .sequential, suggested := none, dflt := 0 }
+  else match m.splitOn ":" with
+    | ["par", n] => (parseNat? n).map fun n => { spec := .parallel none (some n), suggested := none, dflt := 0 }
+    | ["par", "none", s, d] => do
+      let s ← if s == "none" then some none else (parseNat? s).map some
+      let d ← parseNat? d
+      pure { spec := .parallel none none, suggested := s, dflt := d }
+    | _ => none
+
+/-- the partition count the run uses (`none` = sequential) -/
+def ModeTok.parts (m : ModeTok) : Option Nat :=
+  match m.spec with
+  | .sequential => none
+  | .parallel _ p => some (resolvePartsPlain p m.suggested m.dflt)
+
+/-- the terminal downcast: with a wrong `T` it fails — unless a user closure has panicked before it is reached
+    (`hasErr` rows stand for that panic and are rendered `PANIC`) -/
+def castOf (wrong : Bool) (rows : Part) : Option Part :=
+  if wrong && !rows.any D01.hasErr then none else some rows
+
+/-- `Runner { mode, default_partitions, checkpoint_config }.run_collect::<T>` on the planned chain -/
+def runEngine (env : Env) (ck : Option (Bool × Config)) (fs : FS) (chain : List (Node Part)) (m : ModeTok)
+    (wrongT : Bool) : Run (Except TErr Part) :=
+  runCollectT (castOf wrongT) List.flatten env
+    { mode := m.spec, defaultPartitions := m.dflt, checkpoint := ck } m.suggested fs chain
 
 def pidOf (env : Env) (chain : List (Node Part)) (par : Option Nat) : Bytes :=
   match par with
@@ -219,34 +288,47 @@ def addForeign (fs : FS) (ns : List Name) : FS := ns.foldl (fun acc n => write a
 
 def handle (toks : List String) : String :=
   match toks with
-  | tdir :: tpol :: tmax :: trec :: tfirst :: tmut :: tadd :: tpre :: rest =>
+  | tdir :: tpol :: tmax :: trec :: tfirst :: tmut :: tadd :: tpre :: tty :: tsab :: rest =>
     match kv? "dir" [tdir], kv? "pol" [tpol], (kv? "max" [tmax]) >>= D12.max?, (kv? "rec" [trec]) >>= D12.bool?,
           (kv? "first" [tfirst]) >>= first?, (kv? "mut" [tmut]) >>= mut?, (kv? "add" [tadd]) >>= D12.names?,
-          kv? "pre" [tpre], parseReq rest with
-    | some dirS, some polS, some max, some rec, some first, some mu, some add, some preS, some q =>
-      let dirOk? : Option Bool := if dirS == "ok" then some true else if dirS == "file" then some false else none
-      match dirOk?.bind (fun d => (ck? polS max rec).map (fun c => (d, c))) with
-      | none => "BAD-OP"
-      | some (dirOk, ck) =>
-      let par? : Option (Option Nat) :=
-        if q.mode == "seq" then some none
-        else if q.mode.startsWith "par:" then (parseNat? (q.mode.drop 4).toString).map some
-        else none
-      match par? with
-      | none => "BAD-OP"
-      | some par =>
-        let marker : Option Nat := match first with | .crash j => some j | .crashBarrier j => some j | _ => none
+          kv? "pre" [tpre], kv? "ty" [tty], kv? "sab" [tsab], parseReq rest with
+    | some dirS, some polS, some max, some rec, some first, some mu, some add, some preS, some tyS, some sabS, some q =>
+      let dirOk? : Option Bool :=
+        if dirS == "ok" || dirS == "empty" || dirS == "rel" then some true else if dirS == "file" then some false else none
+      let wrong? : Option Bool := if tyS == "ok" then some false else if tyS == "wrong" then some true else none
+      let sab? : Option (Option Nat) := if sabS == "none" then some none else (parseNat? sabS).map some
+      match dirOk?, ck? polS max rec, wrong?, sab?, modeTok? q.mode with
+      | some dirOk, some ck, some wrongT, some sab, some mt =>
+        let par := mt.parts
+        let marker? : Option (Option Nat) :=
+          match first, sab with
+          | .crash j, none => some (some j)
+          | .crashBarrier j, none => some (some j)
+          | .crash _, some _ => none                 -- one marker per program
+          | .crashBarrier _, some _ => none
+          | _, s => some s
+        match marker? with
+        | none => "BAD-OP"
+        | some marker =>
         match chainOf q.src q.steps marker with
         | none => "BAD-OP"
         | some chain =>
-        let pid := pidOf (envAt ns1 true []) chain par
+        let pid := pidOf (envAt ns1 true [] []) chain par
         match pre? pid preS with
         | none => "BAD-OP"
-        | some (fs0, dirs) =>
+        | some (fs0, dirs, bigs) =>
           if !dirOk && !fs0.isEmpty then "BAD-OP"      -- a regular file has no entries
           else
-          let env1 := envAt ns1 dirOk dirs
-          let env2 := envAt ns2 dirOk dirs
+          -- the node whose execution takes the directory away (run proper only)
+          let failFrom? : Option (Option Nat) :=
+            match sab with
+            | none => some none
+            | some _ => (crashIndex chain).map some
+          match failFrom? with
+          | none => "BAD-OP"
+          | some failFrom =>
+          let env1 := envAt ns1 dirOk dirs bigs
+          let env2 := envAt ns2 dirOk dirs bigs failFrom
           -- the earlier run
           let crashPhase (barrier : Bool) : Option (String × FS) :=
             match crashPoint chain barrier with
@@ -257,26 +339,28 @@ def handle (toks : List String) : String :=
                 | _, _ => fs0     -- a panic inside `exec_par` / a plain engine unwinds: nothing is written
               -- with an unusable directory the run returns its `Err` before the armed closure is reached
               let o := if !dirOk && (enabledCfg ck).isSome then "ERR ckpt-create-dir" else "PANIC"
-              some (o ++ " " ++ ownStr env1.isDir pid fs1 ++ " || ", fs1)
+              some (o ++ " " ++ ownStr env1.isDir env1.tooBig pid fs1 ++ " || ", fs1)
           let phase1 : Option (String × FS) :=
             match first with
             | .none => some ("", fs0)
             | .full =>
-              let r := runEngine env1 ck fs0 chain par
-              some (renderOutcome q.canon r.outcome ++ " " ++ ownStr env1.isDir pid r.fs ++ " || ", r.fs)
+              let r := runEngine env1 ck fs0 chain mt wrongT
+              some (renderOutcome q.canon r.outcome ++ " " ++ ownStr env1.isDir env1.tooBig pid r.fs ++ " || ", r.fs)
             | .crash _ => crashPhase false
             | .crashBarrier _ => crashPhase true
           match phase1 with
           | none => "BAD-OP"
           | some (prefix1, fs1) =>
             let fs2 := addForeign (mutateNewest env2.isDir pid mu fs1) add
-            let r := runEngine env2 ck fs2 chain par
+            let r := runEngine env2 ck fs2 chain mt wrongT
             let recS :=
               if isSetupFailure r.outcome then "-"
+              else if !bigs.isEmpty then "*"
               else match mu with | .flip _ _ => "*" | _ => recStr r.log
-            prefix1 ++ renderOutcome q.canon r.outcome ++ " rec=" ++ recS ++ " " ++ ownStr env2.isDir pid r.fs ++
-              " other=" ++ otherStr pid r.fs
-    | _, _, _, _, _, _, _, _, _ => "BAD-OP"
+            prefix1 ++ renderOutcome q.canon r.outcome ++ " rec=" ++ recS ++ " " ++
+              ownStr env2.isDir env2.tooBig pid r.fs ++ " other=" ++ otherStr pid r.fs
+      | _, _, _, _, _ => "BAD-OP"
+    | _, _, _, _, _, _, _, _, _, _, _ => "BAD-OP"
   | _ => "BAD-OP"
 
 def handlers : List (String × (List String → String)) := [("CKPT", handle)]
